@@ -250,8 +250,19 @@ type Machine struct {
 	conMark      int
 	warnMark     int
 	Bare         bool
+	NoHN, NoHI   bool
 	before       []uint8 // bare mode: memory image before the Step
 	beforeMap    map[uint16]uint8
+}
+
+// installHandlers attaches the RETN / RETI notification handlers the scenario asks for (default: both).
+func (m *Machine) installHandlers(cpu *z80.CPU) {
+	if !m.NoHN {
+		cpu.RETNHandler = retnH{m.H}
+	}
+	if !m.NoHI {
+		cpu.RETIHandler = retiH{m.H}
+	}
 }
 
 func b2i(b bool) int {
@@ -324,6 +335,8 @@ type InitSpec struct {
 	Nin     int  // reads the computed port device has already answered (its counter runs on)
 	Bare    bool // attach the real memory object directly to the CPU (no recording wrapper): type-specific fast paths
 	Sid     int // scenario id (passed through to the init event for replays)
+	NoHN    bool // no RETNHandler installed
+	NoHI    bool // no RETIHandler installed
 	R       [27]int
 	Halt    bool
 	Dev     DevDesc
@@ -368,8 +381,8 @@ func NewMachine(is *InitSpec) *Machine {
 	SetRegs(&cpu.States, is.R)
 	cpu.HALT = is.Halt
 	cpu.Interrupt = PendDec(is.Pend)
-	cpu.RETNHandler = retnH{m.H}
-	cpu.RETIHandler = retiH{m.H}
+	m.NoHN, m.NoHI = is.NoHN, is.NoHI
+	m.installHandlers(cpu)
 	m.CPU = cpu
 	return m
 }
@@ -430,6 +443,9 @@ func EmitInit(w *bufio.Writer, is *InitSpec) {
 	}
 	if is.Dev.Kind == "image" {
 		img += `,"img":` + jInts(is.Dev.Img)
+	}
+	if is.NoHN || is.NoHI {
+		img += fmt.Sprintf(`,"hcfg":%d`, b2i(!is.NoHN)+2*b2i(!is.NoHI))
 	}
 	fmt.Fprintf(w, `{"e":"i","sid":%d,"r":%s,"h":%d,"dev":["%s",%d,%d,%d],"io":["%s",%d,%d],"cells":%s,"iocells":%s,"pend":%s%s}`+"\n",
 		is.Sid, jInts(r[:]), b2i(is.Halt), is.Dev.Kind, is.Dev.Seed, is.Dev.Val, is.Dev.Len,
